@@ -115,6 +115,11 @@ def gen_plan(rng, index, tier):
             a = a + np.array([x0 - c[0], ty - c[1]])
             a[:, 0] = np.clip(a[:, 0], 0.5, fW - 1.5)
             a[:, 1] = np.clip(a[:, 1], 0.5, fH - 1.5)
+            # clipping must not pile two nodes onto one grid cell (a zero-length skeleton edge is not a pose in general position)
+            vv = a[~np.isnan(a).any(axis=1)]
+            dmin = min([float(np.abs(vv[i] - vv[j]).max()) for i in range(len(vv)) for j in range(i)] + [1e9])
+            if dmin < max(3.0, 2.5 * cell):
+                continue  # leave this frame's animal where it was
             fr["animals"] = [a.tolist()]
     if plan.get("centroid_only"):
         if not plan["border"]:
